@@ -127,7 +127,15 @@ def malform(draw, p):
 
 @st.composite
 def message_st(draw):
-    kind = draw(st.integers(0, 19))
+    kind = draw(st.integers(0, 20))
+    if kind == 20:
+        # a response object sent by the client (well-formed JSON-RPC, answer to nothing): no reply, the server goes on
+        m = {"jsonrpc": "2.0", "id": draw(st.one_of(st.integers(0, 60), st.none(), st.sampled_from(["a", ""])))}
+        if draw(st.booleans()):
+            m["result"] = draw(st.sampled_from([None, {}, [1, 2], "ok"]))
+        else:
+            m["error"] = {"code": -32000, "message": "client side"}
+        return m
     if kind <= 13:
         method = draw(st.sampled_from(KNOWN_METHODS[:-1]))  # exit drawn separately
     elif kind <= 15:
@@ -195,6 +203,8 @@ def expected_responses(msgs):
     """[(id, 'notfound'|'any')] for the requests processed before the server stops."""
     exp = []
     for m in msgs:
+        if "method" not in m:
+            continue  # a response object of the client: not answered
         if "id" in m:
             exp.append((m["id"], "any" if m["method"] in KNOWN_METHODS else "notfound"))
         if m["method"] == "exit":
@@ -308,7 +318,7 @@ def execute(case, scratch):
         elif len(got_ids) < len(exp_ids):
             missing = exp_ids[len([1 for a, b in zip(got_ids, exp_ids) if a == b]) :][:1]
             k = next((j for j, (a, b) in enumerate(zip(got_ids + [None] * len(exp_ids), exp_ids)) if a != b), 0)
-            discs.append(Disc("request-unanswered", f"request #{k} id={exp_ids[k]!r} ({[m for m in msgs if 'id' in m][k]['method']}) not answered; "
+            discs.append(Disc("request-unanswered", f"request #{k} id={exp_ids[k]!r} ({[m for m in msgs if 'id' in m and 'method' in m][k]['method']}) not answered; "
                                                     f"got {got_ids!r}, expected {exp_ids!r}"))
         else:
             discs.append(Disc("responses-out-of-order-or-duplicated", f"got ids {got_ids!r}, expected {exp_ids!r}"))
